@@ -27,7 +27,7 @@ m = {
     "setup_cmd": "./check setup",
     "hooks": {"guard": "verif", "enable": "go build -tags verif (the harness module replaces github.com/simimpact/srsim by /repo)",
               "baseline_off_cmd": "cd /repo && go test -mod=mod -json -vet=off -count=1 -timeout 25m ./...",
-              "source_commits": ["62b587d", "3f967e0", "e2abfe2", "4b753d3", "968010b", "de01ab7", "bb853bb"], "add_only": True},
+              "source_commits": ["62b587d", "3f967e0", "e2abfe2", "4b753d3", "968010b", "de01ab7", "bb853bb", "e13d354"], "add_only": True},
     "engines": [{"name": "lean4-proof+correspondence", "path": "lean/ harness/ check",
                  "serves_properties": [c["property_id"] for c in checks],
                  "kind_free_text": "Lean 4 theorems about executable models; Go harness + Lean drivers run model and implementation on the same operation sequences"}],
